@@ -1,61 +1,124 @@
 """C04 — seqhash invariance."""
 from common import *
 
-RULE = ("pairs of Hash calls on related inputs, the second input computed by the Lean side (rotl k s / revComp s / recase / U->T): "
-        "exhaustive over ACGT^<=L x every rotation offset x both strandedness values, ACGT^<=L x both topologies for the strand clause, "
-        "IUPAC15^<=L15; random IUPAC / RNA / protein strings (log-uniform length to MAXLEN) with random offsets and case masks. "
-        "non-trivial = the two inputs differ (or the RNA/DNA clause) and length >= 2; distinct by case text")
+from seqfam import structured
+
+RULE = ("pairs of Hash calls on related inputs, the second input computed by the Lean side (rotl k s / revComp s / recase / U->T spelling). "
+        "Exhaustive families: rot = every word of ACGT^<=L x EVERY rotation offset x both strandedness values (DNA); strand = every word of "
+        "ACGT^<=L x both topologies; the same two families over the 15 IUPAC codes ^<=L15 (every offset, both strandedness values / both "
+        "topologies); every word of ACGU^<=LR in random case under RNA (every offset); case = every word over aAcCgGtTuU ^<=LC x {DNA,RNA} x "
+        "masks (all-upper, all-lower, alternating) - so lower->mixed pairs and u/U under both types; rna / rnacp (case-preserving DNA spelling) = "
+        "every word of ACGTU^<=LN in random case x 4 flag pairs (mixed T/U spellings). thorough: L=9, L15=4, LR=6, LC=4, LN=5 (the bounds the "
+        "property states); quick: L=5, L15=2, LR=3, LC=3, LN=4. Then random IUPAC / RNA (with U) / Z / protein (both cases) strings, log-uniform "
+        "length to MAXLEN (3000 quick, 10^5 thorough), random offsets and masks, and STRUCTURED long inputs (gen/seqfam.py: reverse-palindromes, "
+        "near-palindromes differing near the middle / an end, odd length with (non-)self-complementary centre, periodic and near-periodic words, "
+        "letterwise self-complementary ambiguity words, rotations of these) at lengths 10..5000 for the strand and rotation clauses. "
+        "non-trivial = the two inputs differ (or an RNA/DNA case) and length >= 2; distinct by case text")
 EXHAUSTIVE = {"quick": False, "thorough": True}
-TRUSTED_BASE = ["Base/Blake3.lean instantiates the digest parameter for the correspondence only; it is compared with the vendored Go BLAKE3 on every run",
-                "the clauses are proved over the arg-min least rotation and transferred to the Booth-loop model by C12 (Props/C12Booth.booth_least): model_hash_* in Props/C04"]
-ASSUMPTIONS = ["inputs are ASCII (the model's upper-casing is Go's strings.ToUpper only on ASCII; the theorems themselves need no ASCII hypothesis)",
-               "the theorems hold for every digest function; nothing about BLAKE3 is assumed",
-               "strand clause: the normalised sequence is over the 15 IUPAC codes (U only under RNA) - the property's own quantifier, hypothesis Iupac15 (norm ty s) of hash_strand"]
+TRUSTED_BASE = ["Base/Blake3.lean instantiates the digest parameter for the correspondence only; it is compared with the vendored Go BLAKE3 "
+                "only through seqhash.Hash itself (every case compares the real hash with the model's hash); there is no separate digest op",
+                "the clauses are proved over the arg-min least rotation and transferred to the Booth-loop model by C12 (Props/C12Booth.booth_least): model_hash_* in Props/C04",
+                "strand clause: the partner sent to the code is the model's revComp (the code's own regenerated complement table); that it is the "
+                "biological other strand is C11 (table_compl_is_codeset_complement) and is re-checked by the judge on every strand case "
+                "against the independent code-set complement (Driver.C04.specRc)"]
+ASSUMPTIONS = ["the theorems hold for every digest function; nothing about BLAKE3 is assumed",
+               "non-ASCII input is rejected by the first statement of Hash (modelled; Props/C05 reject_*); accepted input is ASCII, where the model's "
+               "upper-casing is Go's strings.ToUpper",
+               "strand clause: the normalised sequence is over the 15 IUPAC codes (U only under RNA) - the property's own quantifier, hypothesis "
+               "Iupac15 (norm ty s) of hash_strand; outside it (U under DNA, Z) strand invariance really fails in the code (same root cause as known "
+               "finding C05-dna-u-strand), those cases are sent for correspondence but not judged"]
 PARTIAL = []
 
 PROT = "ACDEFGHIKLMNPQRSTVWYUO*BXZ"
+FLAGS = [("true", "true"), ("true", "false"), ("false", "true"), ("false", "false")]
 
 def cases(seed, tier):
     r = rng(seed, "C04")
-    L, L15 = (5, 2) if tier == "quick" else (7, 3)
+    quick = tier == "quick"
+    L, L15, LR, LC, LN = (5, 2, 3, 3, 4) if quick else (9, 4, 6, 4, 5)
+    # --- exhaustive: rotation and strand clauses
     for w in words(ACGT, L, 1):
         for k in range(len(w)):
-            for ds in ("true", "false"):
-                yield ["rot", w, "DNA", ds, str(k)]
-        for circ in ("true", "false"):
-            yield ["strand", w, "DNA", circ]
+            yield ["rot", w, "DNA", "true", str(k)]
+            yield ["rot", w, "DNA", "false", str(k)]
+        yield ["strand", w, "DNA", "true"]
+        yield ["strand", w, "DNA", "false"]
     for w in words(IUPAC15, L15, 1):
-        for circ in ("true", "false"):
-            yield ["strand", w, "DNA", circ]
-        yield ["rot", w, "DNA", "true", str(len(w) // 2)]
-    maxlen = 3000 if tier == "quick" else 100000
-    n = 300 if tier == "quick" else 3000
+        yield ["strand", w, "DNA", "true"]
+        yield ["strand", w, "DNA", "false"]
+        for k in range(len(w)):
+            yield ["rot", w, "DNA", "true", str(k)]
+            yield ["rot", w, "DNA", "false", str(k)]
+    for w in words("ACGU", LR, 1):
+        v = randcase(r, w)
+        yield ["strand", v, "RNA", r.choice(["true", "false"])]
+        for k in range(len(w)):
+            yield ["rot", v, "RNA", r.choice(["true", "false"]), str(k)]
+    # --- exhaustive: case clause (mixed-case starting words, u/U under both types) and RNA/DNA clause (mixed T/U)
+    i = 0
+    for w in words("aAcCgGtTuU", LC, 1):
+        for ty in ("DNA", "RNA"):
+            for mask in ("u", "l", "ul"):
+                c, d = FLAGS[i % 4]; i += 1
+                yield ["case", w, mask, ty, c, d]
+    for w in words("ACGTU", LN, 1):
+        v = randcase(r, w)
+        for (c, d) in FLAGS:
+            yield ["rna", v, c, d]
+        c, d = FLAGS[i % 4]; i += 1
+        yield ["rnacp", v, c, d]
+    # --- random
+    maxlen = 3000 if quick else 100000
+    n = 600 if quick else 4000
     for _ in range(n):
         k = loglen(r, 1, maxlen)
-        kind = r.choice(["rot", "strand", "case", "rna", "rotp", "rna2"])
+        kind = r.choice(["rot", "rotu", "strand", "case", "casez", "rna", "rnacp", "rotp", "rna2"])
         if kind == "rot":
             w = randcase(r, randword(r, IUPAC15 + "Z", k))
             yield ["rot", w, r.choice(["DNA", "RNA"]), r.choice(["true", "false"]), str(r.randrange(0, 2 * k + 1))]
+        elif kind == "rotu":      # U in the word: RNA spelling, and U under DNA (accepted; in-domain for rotation)
+            w = randcase(r, randword(r, "ACGU" + r.choice(["", "T", "RYN", "Z"]), k))
+            yield ["rot", w, r.choice(["DNA", "RNA"]), r.choice(["true", "false"]), str(r.randrange(0, 2 * k + 1))]
         elif kind == "rotp":
-            yield ["rot", randword(r, PROT, k), "PROTEIN", "false", str(r.randrange(0, k + 1))]
+            w = randword(r, PROT, k)
+            yield ["rot", r.choice([w, w.lower(), randcase(r, w)]), "PROTEIN", "false", str(r.randrange(0, 2 * k + 1))]
         elif kind == "strand":
             ty = r.choice(["DNA", "RNA"])
             w = randcase(r, randword(r, IUPAC15 + ("U" if ty == "RNA" else ""), k))
             yield ["strand", w, ty, r.choice(["true", "false"])]
-        elif kind == "case":
+        elif kind in ("case", "casez"):
             ty = r.choice(["DNA", "RNA", "PROTEIN"])
-            w = randword(r, PROT if ty == "PROTEIN" else IUPAC15, k)
-            yield ["case", w, randword(r, "ul", r.randint(1, 7)), ty, r.choice(["true", "false"]), "false" if ty == "PROTEIN" else r.choice(["true", "false"])]
+            alpha = PROT if ty == "PROTEIN" else (IUPAC15 + ("UZ" if kind == "casez" else "U" if ty == "RNA" else ""))
+            w = randword(r, alpha, k)
+            w = r.choice([w, w.lower(), randcase(r, w)])        # the starting word is not always upper case
+            c, d = r.choice(FLAGS)
+            yield ["case", w, randword(r, "ul", r.randint(1, 7)), ty, c, "false" if ty == "PROTEIN" else d]
         else:
-            w = randcase(r, randword(r, "ACGU" if kind == "rna" else "ACGURYKMSWBDHVN", k))
-            yield ["rna", w, r.choice(["true", "false"]), r.choice(["true", "false"])]
+            alpha = {"rna": "ACGU", "rna2": "ACGURYKMSWBDHVN", "rnacp": "ACGTU"}[kind]
+            w = randcase(r, randword(r, alpha + r.choice(["", "T"]), k))
+            c, d = r.choice(FLAGS)
+            yield ["rnacp" if kind == "rnacp" else "rna", w, c, d]
+    # --- structured long inputs: the strand / rotation decision is taken deep inside the word
+    m = 250 if quick else 2500
+    for _ in range(m):
+        k = loglen(r, 10, 5000)
+        fam, w = structured(r, k, r.choice(["ACGT", "ACGT", "AT", "ACGTRYSWKMBDHVN"]))
+        ty = r.choice(["DNA", "DNA", "RNA"])
+        if ty == "RNA" and r.random() < 0.5:
+            w = w.replace("T", "U")
+        if r.random() < 0.3:
+            w = randcase(r, w)
+        yield ["strand", w, ty, "false"]
+        yield ["strand", w, ty, "true"]
+        yield ["rot", w, ty, r.choice(["true", "false"]), str(r.randrange(0, len(w) + 1))]
     # rejected inputs (outside the property's quantifier: not judged)
     for w, ty in [("ACGX", "DNA"), ("ACGT", "dna"), ("MKV", "PROTEIN")]:
         yield ["strand", w, ty, "true"]
 
 TECHNIQUE = "Lean 4 proof (rotation / strand / case / RNA-DNA laws of the hash model for every digest function); differential correspondence with a Lean BLAKE3"
 LEVEL_TEXT = ("The four invariance clauses are theorems about the hash model for every digest function, every accepted sequence of any "
-              "length and every offset (Props/C04), stated over the arg-min least rotation (i.e. modulo C12). The model (Booth loop + "
+              "length and every offset (Props/C04: first over the arg-min least rotation, then transferred to the Booth-loop model through C12's "
+              "booth_least, model_hash_*). The model (Booth loop + "
               "BLAKE3 written in Lean) is tied to seqhash.Hash by correspondence on every generated pair, and every pair of real outputs is "
               "judged by the invariance relation itself.")
 LEVEL_NOTE = "Trusted: Lean kernel; harness + polymodel; BLAKE3 is a parameter of the theorems (tested, not verified); ASCII input."
